@@ -123,3 +123,62 @@ def obligations(ctx):
     if nsome == 0:
         ob.fail("no path returns a proposal")
     ob.finish(E)
+    utxo_stat_totals(ctx)
+
+
+def utxo_stat_totals(ctx):
+    """UtxosStat::new — the per-asset totals the size calculator works with are the SUMS over all UTxOs holding the asset (they
+    decide the CBOR width reserved for each quantity in the max_value_size fit check), the per-policy asset counts and the
+    policy count are those of the index, the ADA total is passed through; an overflowing sum is an error."""
+    import itertools
+    P = ctx.P
+    ob = Obligation(ctx, "c13_e2_utxo_stat_totals", "1-2 assets held by 1-3 UTxOs each, amounts over all u64; 1-2 policies with 1-2 assets", ["UtxosStat::new"], fallback_native="e2n_c13_send_all")
+    agg = Engine(P)
+    U64 = (1 << 64) - 1
+    for holders in ([1], [2], [3], [2, 1], [1, 3]):
+        E = Engine(P, max_loop=max(holders) + len(holders) + 3)
+        amt = {}
+        def mk(E=E, holders=holders, amt=amt):
+            amt.clear()
+            amounts = []
+            for i, h in enumerate(holders):
+                ent = []
+                for u in range(h):
+                    v = E.sym_int("amount_%d_%d" % (i, u), "u64")
+                    E.pc.append(z3.And(v.t >= 0, v.t <= U64))
+                    amt[(i, u)] = v.t
+                    ent.append(VStruct("()", [VStruct("UtxoIndex", [VInt(10 * i + u, "usize")]), VStruct("BigNum", [VInt(v.t, "u64")])]))
+                amounts.append(VSeq(ent, "map"))
+            pol = VSeq([VStruct("()", [VStruct("PolicyIndex", [VInt(0, "usize")]), VSeq([VStruct("AssetIndex", [VInt(i, "usize")]) for i in range(len(holders))], "set")])], "map")
+            tot = E.sym_int("total_ada", "u64")
+            return [R(VStruct("BigNum", [VInt(tot.t, "u64")]), "total_ada"), R(pol, "policy_to_asset"), R(VSeq(amounts, "vec"), "amounts")]
+        nok = 0
+        for o in E.explore("UtxosStat::new", mk, max_paths=200):
+            what = "assets held by %s UTxOs" % holders
+            if o.kind != "return":
+                ob.vc("%s: no panic (%s %s)" % (what, o.kind, o.msg[:80]), o.pc, z3.BoolVal(False)); continue
+            sums = [z3.Sum([amt[(i, u)] for u in range(h)]) for i, h in enumerate(holders)]
+            if o.value.variant != "Ok":
+                ob.vc("%s: an error only when a total exceeds u64" % what, o.pc, z3.Or([s_ > U64 for s_ in sums])); continue
+            nok += 1
+            E.enter(o)
+            st = o.value.fields[0]
+            names = P.struct_fields["UtxosStat"]
+            cia = VM.deref(E, st.fields[names.index("coins_in_assets")])
+            got = {}
+            for it in cia.items:
+                k = VM.deref(E, it.fields[0]); v = VM.deref(E, it.fields[1])
+                got[E.concretize(k.fields[0].t)] = v.fields[0].t
+            if sorted(got) != list(range(len(holders))):
+                ob.violation("%s: totals recorded for assets %s" % (what, sorted(got))); continue
+            for i in range(len(holders)):
+                ob.vc("%s: the total of asset %d is the sum over its %d holders" % (what, i, holders[i]), o.pc, got[i] == sums[i])
+            aip = VM.deref(E, st.fields[names.index("assets_in_policy")])
+            if len(aip.items) != 1 or E.concretize(VM.deref(E, aip.items[0].fields[1]).t) != len(holders):
+                ob.violation("%s: assets_in_policy is %r" % (what, aip.items))
+            ob.vc("%s: policy count and ADA total are passed through" % what, o.pc, z3.And(VM.deref(E, st.fields[names.index("total_policies")]).t == 1,
+                                                                                             VM.deref(E, st.fields[names.index("ada_coins")]).fields[0].t == z3.Int("total_ada")))
+        if nok == 0:
+            ob.fail("no Ok path for %s" % holders)
+        agg.stats["paths"] += E.stats["paths"]; agg.stats["feasibility_queries"] += E.stats["feasibility_queries"]; agg.stats["functions"] |= E.stats["functions"]
+    ob.finish(agg, lambda m, info=None: ("e2n_c13_send_all", []))
